@@ -108,6 +108,14 @@ type KnownFinding struct {
 	Class    string `json:"class"`            // regexp on violation class
 	Detail   string `json:"detail,omitempty"` // regexp on violation detail
 	What     string `json:"what"`
+	Title    string `json:"title,omitempty"`
+}
+
+func (k *KnownFinding) short() string {
+	if k.Title != "" {
+		return k.Title
+	}
+	return k.What
 }
 
 func fatal2(format string, a ...any) {
@@ -721,7 +729,7 @@ func check(args []string) int {
 			k := r.Viol.Class
 			kf := matchKnown(known, prop, r.Viol.Class, r.Viol.Detail)
 			if kf != nil {
-				k = "known:" + kf.What
+				k = "known:" + kf.short()
 			}
 			f := founds[k]
 			if f == nil {
@@ -739,7 +747,7 @@ func check(args []string) int {
 		kf := matchKnown(known, prop, k, c.stderr)
 		kk := k
 		if kf != nil {
-			kk = "known:" + kf.What
+			kk = "known:" + kf.short()
 		}
 		f := founds[kk]
 		if f == nil {
